@@ -24,8 +24,9 @@ REGISTRY = dict(
           "Archimedean fields); proved refutations: for eps=1/4 on [10,1000] no bound in (bracket,eps,tol) exists "
           "(no_uniform_bound_eps_quarter, every N), and with 0 inside the bracket a smooth increasing f makes the loop run for "
           "ever at eps=1 (creeping_never_terminates), so TerminatesAlways is FALSE (terminatesAlways_false); the bound is "
-          "checked on every real run it applies to (incl. adversarial overshoot/greedy tapes). Still open: brackets touching "
-          "0 from one side (start=0), termination without a uniform bound for eps<1/2 away from 0."),
+          "same with 0<=start (brackets touching 0): end<=(tol/2)(2eps)^m gives n(2m+5) iterations (within_nonneg_bracket, "
+          "terminates_nonneg); the bounds are checked on every real run they apply to (incl. adversarial overshoot/greedy "
+          "tapes). Still open: termination without a uniform bound for eps<1/2."),
     note=("Trusted: Lean kernel + propext/Classical.choice/Quot.sound; Mathlib; hand-written Model.Brent tied by "
           "correspondence only; binary64 rounding not in the theorems; termination outside the forced-bisection guard is "
           "validated by running the real class, not proved."),
@@ -45,27 +46,42 @@ MAX_ITERS = 400
 BOUND_SLACK = 2.0 ** -30
 
 
+def _least_pow(base, factor, target, cap):
+    """least k with target <= base * factor^k (None above cap)"""
+    k, p = 0, base
+    while p < target:
+        p *= factor
+        k += 1
+        if k > cap:
+            return None
+    return k
+
+
 def iter_bound(start, stop, eps, tol):
-    """(N, m, n) with N = n(2m+2) = `C19Term.iterBound m n`: m least with stop <= start (2 eps)^m, n least with
-    stop - start < tol 2^n (both with BOUND_SLACK). None when `within_pos_bracket` does not apply
-    (start <= 0, 2 eps <= 1, or m absurdly large because 2 eps is barely above 1)."""
-    if not (start > 0 and stop >= start and 2 * eps > 1 and tol > 0):
-        return None
+    """(N, m, n, which): the smaller of the two proved iteration bounds (Props/C19Term.lean), both with
+    BOUND_SLACK, n least with stop - start < tol 2^n:
+      pos    – `within_pos_bracket`:    0 < start,  m least with stop <= start (2 eps)^m,      N = n(2m+2) = iterBound m n
+      nonneg – `within_nonneg_bracket`: 0 <= start, m least with stop <= (tol/2) (2 eps)^m,    N = n(2m+5) = iterBound0 m n
+    None when neither applies (start < 0, 2 eps <= 1, or m absurdly large because 2 eps is barely above 1)."""
     if any(v != v or abs(v) == float("inf") for v in (start, stop, eps, tol)):
         return None
-    ratio, k, m, p = stop / start * (1 + BOUND_SLACK), 2 * eps, 0, 1.0
-    while p < ratio:
-        p *= k
-        m += 1
-        if m > 2000:
-            return None
+    if not (start >= 0 and stop >= start and 2 * eps > 1 and tol > 0):
+        return None
     width, n, q = (stop - start) * (1 + BOUND_SLACK), 0, tol
     while not width < q:
         q *= 2
         n += 1
         if n > 2200:
             return None
-    return n * (2 * m + 2), m, n
+    cands = []
+    if start > 0:
+        m = _least_pow(1.0, 2 * eps, stop / start * (1 + BOUND_SLACK), 2000)
+        if m is not None:
+            cands.append((n * (2 * m + 2), m, n, "pos"))
+    m = _least_pow(tol / 2, 2 * eps, stop * (1 + BOUND_SLACK), 2000)
+    if m is not None:
+        cands.append((n * (2 * m + 5), m, n, "nonneg"))
+    return min(cands) if cands else None
 
 
 # ------------------------------------------------------------------ generators
@@ -101,7 +117,8 @@ def gen_case(rng, i):
         thr = rng.random()
         r = rng.uniform(start, stop)
         rate = 10 ** rng.uniform(-4, 0)
-        f = lambda t, r=r, rate=rate: math.exp(-rate * (t - r)) - 1.0
+        # exponent clamped: exp(709.8) overflows (a harness OverflowError is not a finding about the class)
+        f = lambda t, r=r, rate=rate: math.exp(min(-rate * (t - r), 700.0)) - 1.0
         return dict(mode=mode, start=start, stop=stop, eps=eps, tol=tol, f=f, fname="gap")
     if mode == "reject":
         start, stop = rng.uniform(-5, 5), rng.uniform(-5, 5)
@@ -138,7 +155,7 @@ def gen_case(rng, i):
 
 
 def gen_posbound(rng):
-    """Brackets away from 0 with eps > 1/2 (where C19Term's iteration bound applies) and ordinate tapes built
+    """Brackets with 0 <= start and eps > 1/2 (where C19Term's iteration bounds apply) and ordinate tapes built
     to make the run as long as possible:
       overshoot – alternating signs, each ordinate R times the previous one in magnitude, all tiny (secant branch):
                   every new point replaces b and is swapped to a, so |c-d| stays of the order of the width and only
@@ -150,8 +167,9 @@ def gen_posbound(rng):
     for _ in range(200):
         eps = rng.choice([1.0, 1.0, 1.0, 0.75, 2.0, 0.51, 8.0])
         tol = rng.choice([1.0, 1.0, 0.5, 1e-3])
-        start = rng.choice([10.0, 1.0, float(rng.randint(1, 200)), rng.uniform(0.01, 50)])
-        stop = start * rng.choice([3.0, 10.0, 100.0, 1 + 10 ** rng.uniform(-1, 2.5)])
+        start = rng.choice([10.0, 1.0, 0.0, 0.0, float(rng.randint(1, 200)), rng.uniform(0.01, 50)])
+        stop = (start * rng.choice([3.0, 10.0, 100.0, 1 + 10 ** rng.uniform(-1, 2.5)]) if start > 0
+                else rng.choice([10.0, 100.0, 1000.0, 10 ** rng.uniform(0, 3)]))
         nb = iter_bound(start, stop, eps, tol)
         if nb is not None and 1 <= nb[0] <= MAX_ITERS - 20:
             break
@@ -364,8 +382,8 @@ def oracle(case, status, xs, ys, fin):
         return "reported converged with |b-a| >= tol"
     nb = iter_bound(case["start"], case["stop"], case["eps"], case["tol"])
     if nb is not None and len(xs) > nb[0]:
-        return (f"iteration bound exceeded: {len(xs)} iterations without convergence, C19Term.within_pos_bracket "
-                f"gives at most n(2m+2) = {nb[0]} (m={nb[1]}, n={nb[2]}) for every ordinate sequence")
+        return (f"iteration bound exceeded: {len(xs)} iterations without convergence, C19Term.within_{nb[3]}_bracket "
+                f"gives at most {nb[0]} (m={nb[1]}, n={nb[2]}) for every ordinate sequence")
     # ordinates stored must be the ones provided at those abscissae
     pts = {case["start"]: case["fs"], case["stop"]: case["fe"]}
     last = {}
@@ -388,8 +406,9 @@ def check(rep: Report, tier: str, seed: int) -> None:
                 "eps > 1/2 under overshoot / greedy / random adversarial tapes (iteration-count oracle). "
                 "non-trivial = at least 2 queried abscissae; distinct = distinct (bracket, tape) bit patterns")
     rep.assumptions = [
-        "termination for brackets touching 0 or eps < 1/2 is not a theorem (TerminatesAlways unproved there; for "
-        "0 < start and eps > 1/2 see C19Term.within_pos_bracket); validated by running the real class to convergence",
+        "termination for brackets with negative abscissae or eps <= 1/2 is not a theorem (TerminatesAlways is false: "
+        "C19Term.terminatesAlways_false; for 0 <= start and eps > 1/2 see C19Term.within_pos_bracket / within_nonneg_bracket); "
+        "validated by running the real class to convergence",
         "the iteration bound n(2m+2) is a theorem in exact arithmetic; on binary64 runs it is checked with m, n computed "
         "for ratio and width enlarged by (1 + 2^-30) (see BOUND_SLACK)",
         "binary64 rounding is outside the theorems (they are about the same definitions over an ordered field)",
@@ -422,7 +441,7 @@ def check(rep: Report, tier: str, seed: int) -> None:
         rep.hist("iters_bucket", min(len(xs) // 10 * 10, 100))
         nb = iter_bound(case["start"], case["stop"], case["eps"], case["tol"]) if status != "reject" else None
         if nb is not None and nb[0] > 0:
-            rep.hist("bound_applies", case["mode"] + ("/" + case["kind"] if "kind" in case else ""))
+            rep.hist("bound_applies", case["mode"] + ("/" + case["kind"] if "kind" in case else "") + ":" + nb[3])
             ratio = len(xs) / nb[0]
             rep.hist("iters_over_bound_pct", min(int(ratio * 10) * 10, 100))
             if ratio > rep.extra.get("max_iters_over_bound", (0.0,))[0]:
